@@ -1,0 +1,9 @@
+//go:build verif && verif_metrics
+
+package extendeddaemonset
+
+import generator "k8s.io/kube-state-metrics/v2/pkg/metric_generator"
+
+// GenerateMetricFamiliesForVerif exposes the metric family generators to the
+// /verif harness (registration itself needs a live REST config).
+func GenerateMetricFamiliesForVerif() []generator.FamilyGenerator { return generateMetricFamilies() }
